@@ -16,4 +16,31 @@ void fit1d(const double * in, double * out)
   if constexpr (SPEC == 4) c = smooth::fit_spline_1d(dt, dx, smooth::spline_specs::MinDerivative<double, 6, 3, 3>{});
   for (int i = 0; i < c.size(); ++i) *out++ = c(i);
 }
+// fit_spline on a Lie group (native scan only): in = [t_0..t_{P-1} | g_0..g_{P-1}]; for every data point i the curve is evaluated at
+// t_i - d, t_i, t_i + d (d = 1e-7 (t_{P-1}-t_0), clamped to the span): out = P x 3 x [value (RepSize) | body velocity (Dof)]
+template<int SPEC, typename G, int P>
+void fitgrp(const double * in, double * out)
+{
+  constexpr int R = vm::rep_of<G>(), D = smooth::Dof<G>;
+  std::vector<double> ts(in, in + P);
+  std::vector<G> gs;
+  for (int i = 0; i < P; ++i) gs.push_back(vm::load<G>(in + P + R * i));
+  const double d = 1e-7 * (ts.back() - ts.front());
+  auto run = [&](const auto & c) {
+    for (int i = 0; i < P; ++i) {
+      for (int k = -1; k <= 1; ++k) {
+        const double t = std::min(std::max(ts[i] + k * d, ts.front()), ts.back());
+        smooth::Tangent<G> vel;
+        G g = c(t - ts.front(), vel);
+        vm::store(g, out);
+        for (int j = 0; j < D; ++j) *out++ = vel(j);
+      }
+    }
+  };
+  if constexpr (SPEC == 0) run(smooth::fit_spline(ts, gs, smooth::spline_specs::PiecewiseLinear<G>{}));
+  if constexpr (SPEC == 1) run(smooth::fit_spline(ts, gs, smooth::spline_specs::FixedDerCubic<G, 1>{}));
+  if constexpr (SPEC == 2) run(smooth::fit_spline(ts, gs, smooth::spline_specs::FixedDerCubic<G, 2>{}));
+  if constexpr (SPEC == 3) run(smooth::fit_spline(ts, gs, smooth::spline_specs::MinDerivative<G, 5, 3, 3>{}));
+  if constexpr (SPEC == 4) run(smooth::fit_spline(ts, gs, smooth::spline_specs::MinDerivative<G, 6, 3, 3>{}));
+}
 }  // namespace vfit
